@@ -1,16 +1,18 @@
 """C14 — the formatter never changes a program, loses no comment, and is idempotent.
 
 P: theorems of coq/theories/Props/C14.v over Fmt/Model.v: a Wadler-style document language with the SET of admissible
-   renderings (every flat/broken choice per group; the width algorithm of the `pretty` crate is not modelled), the
-   document builder `doc_of` for the expression/statement fragment (literal transcription of cst_print.rs) and the
-   parser's line-break rule (a line break matters only directly before a postfix `(` `[` `.`).
+   renderings (every flat/broken choice per group, the `pretty` crate's next-command indentation rule; its width algorithm is
+   not modelled), the document builder `doc_of` for the expression/statement fragment (literal transcription of cst_print.rs)
+   and the parser's line-break rule (a line break matters only directly before a postfix `(` `[` `.`).
 C: the extracted model (ocaml/fmt_drv.ml) is run on the REAL green tree (dumped by harness/lang/src/bin/fmt_run.rs) of every
-   fragment program; the REAL output of mimium_fmt::pretty_print_cst at every width/indent must be one of the model's
-   admissible renderings; the model's predictions (tokens/comments the document does not emit, unsafe break points) are
-   compared with what the implementation really does.
+   program of the fragment; the REAL output of mimium_fmt::pretty_print_cst at every width/indent must be one of the model's
+   admissible renderings (sound membership test); the hypotheses of the theorems are evaluated per program (emits_all,
+   safe_breaks, same document after re-parsing) and the parser's line-break rule is tested on the real parser (re-layout).
 S: the three facts of the property are evaluated directly on the implementation for every source x width x indent:
-   (i) output parses without errors to the same AST, (ii) same comment sequence, (iii) fmt(output) == output,
-   (iv) same syntax-token sequence modulo line breaks / `;` and trailing commas.
+   (i) output parses without errors to the same AST (parse_program dump and parse_to_expr dump, spans ignored),
+   (ii) same comment sequence, (iii) fmt(output) == output,
+   (iv) same syntax-token sequence modulo line breaks / `;` (both LineBreak trivia) and trailing commas.
+   A failing valid program outside every class predicate of KNOWN_FINDINGS.txt is a VIOLATION (shrunk replay).
 """
 import concurrent.futures, glob, json, os, re, subprocess, sys, time
 from vplib import *
@@ -105,10 +107,6 @@ def walk(t):
 
 def tokens_of(t):
     return [x for x in walk(t) if x[0] == 'T']
-
-
-def has_comment(tok):
-    return any(x[0] in 'LB' for x in tok[3] + tok[4])
 
 
 def first_token(t):
@@ -229,10 +227,6 @@ def cls_comment_on_unprinted_trivia(t, toks):
     return False
 
 
-def cls_empty_block_comment(t, toks):
-    return False
-
-
 def cls_leading_block_comment(t, toks):
     """a comment before the first syntax token that is NOT followed by a line break is emitted twice (once by
     extract_file_leading_comments, once as leading trivia of the first token)"""
@@ -276,6 +270,33 @@ def cls_nested_unary(t, toks):
     return False
 
 
+def cls_tuple_by_nested_trailing_comma(t, toks):
+    """`([a,])`: is_tuple_expr (cst_parser.rs) looks for a comma before the matching `)` counting only parentheses, so a comma
+    inside `[..]` / `{..}` / `|..|` makes the parenthesis a one-element TUPLE without a comma of its own; when every such comma
+    is a trailing comma the printer drops it and the output is a plain parenthesised expression (different AST)"""
+    for x in walk(t):
+        if x[0] == 'N' and x[1] == "TupleExpr":
+            its = list_items(x)
+            own = sum(1 for c in x[2] if c[0] == 'T' and c[1] == "Comma")
+            if len(its) == 1 and own == 0:
+                ts = tokens_of(x)
+                depth = -1
+                commas = []
+                for i, tk in enumerate(ts):
+                    if tk[1] == "ParenBegin":
+                        depth += 1
+                    elif tk[1] == "ParenEnd":
+                        depth -= 1
+                        if depth < 0:
+                            break
+                    elif tk[1] == "Comma" and depth == 0:
+                        nxt = ts[i + 1][1] if i + 1 < len(ts) else ""
+                        commas.append(nxt in DELIMS_CLOSE or nxt == "LambdaArgBeginEnd")
+                if commas and all(commas):
+                    return True
+    return False
+
+
 def cls_if_branch_assignment(t, toks):
     """an assignment as condition / branch of an `if`: the green tree holds `x` and `= 1` as two children, print_if_expr keeps
     the first and silently drops the second (no parse error: the program changes)"""
@@ -299,6 +320,7 @@ CLASSES = {
     "one-element-tuple": (cls_single_tuple_trailing_comma, ALL - {"comments"}),
     "sign-of-signed-operand": (cls_nested_unary, ALL - {"comments"}),
     "assignment-as-if-branch": (cls_if_branch_assignment, ALL),
+    "tuple-by-nested-trailing-comma": (cls_tuple_by_nested_trailing_comma, {"ast", "expr"}),
 }
 
 
@@ -439,7 +461,10 @@ class FGen:
             self.args(d, 0, 4, "[", "]")
         elif r == 8:       # paren
             self.t("(")
-            self.expr(d - 1)
+            if self.risky and self.r.chance(1, 6):
+                self.t("["); self.lit(); self.t(","); self.t("]")     # tuple only through the nested trailing comma
+            else:
+                self.expr(d - 1)
             self.t(")")
         elif r == 9:       # field / projection / index
             self.t(self.name())
@@ -967,6 +992,7 @@ WITNESSES = [
     ("if-then-branch-starts-with-bracket", "if (c)\n (a, b) else d", _w_if_then),
     ("one-element-tuple", "(a,)", lambda a: all(r.get("out", "").strip() == "(a)" for r in a["runs"])),
     ("sign-of-signed-operand", "- -x", lambda a: all(r.get("out", "").startswith("--x") for r in a["runs"])),
+    ("tuple-by-nested-trailing-comma", "([a,])", lambda a: all(r.get("out", "").strip() == "([a])" and not r["ast_same"] for r in a["runs"])),
     ("assignment-as-if-branch", "if (a) x = 1 else y", lambda a: all("1" not in r.get("out", "1") for r in a["runs"])),
 ]
 
@@ -1013,7 +1039,6 @@ def run(ck):
         for c in open(cases, errors="replace", newline="").read().split("\n%%\n"):
             if c.strip():
                 S.append(("corpus", c, None))
-    n_corpus = len(S)
     n_gen = 3000 if quick else 30000
     n_risky = 500 if quick else 6000
     rng = ck.rng.fork("gen")
@@ -1130,6 +1155,7 @@ def run(ck):
                     ck.known(findings[wcls], f"{s!r} -> {a['runs'][0].get('out', '')!r}")
 
         # ---- model side: the real output must be an admissible rendering of the model document ----
+        frag_src = set()
         if model_ok:
             lines, owner = [], []
             for j in good:
@@ -1153,6 +1179,7 @@ def run(ck):
                     add("runs_outside_fragment")
                     continue
                 tot["frag"] += 1
+                frag_src.add(j)
                 o, s, p = batch[j]
                 if m["admits"]:
                     tot["adm"] += 1
@@ -1184,6 +1211,8 @@ def run(ck):
         rl_reqs, rl_owner = [], []
         for j in good:
             o, s, p = batch[j]
+            if j not in frag_src:
+                continue      # the line-break rule is claimed for the fragment only (match arms are separated by line breaks)
             if o.startswith("gen") or o in ("lmmm", "corpus") or (not quick and o == "shipped"):
                 for k in range(n_rl):
                     t = relayout(rr.fork("%d.%d" % (lo + j, k)), res[j]["in"]["toks"])
